@@ -1,11 +1,14 @@
 package checks
 
 import (
+	"context"
 	"fmt"
 	"strings"
 	"time"
 
 	"grol.io/grol/ast"
+	"grol.io/grol/eval"
+	"grol.io/grol/repl"
 	"grol.io/grol/token"
 	"verif/internal/core"
 	"verif/internal/obs"
@@ -342,7 +345,65 @@ func runC02(c *core.Ctx) {
 		return true
 	})
 	_ = done
+	if !c.Expired() {
+		n := c02EvalOneOptions(c)
+		bounds = append(bounds, fmt.Sprintf("repl.EvalOne: %d programs (definitions, calls, macros defined and used in one input or across inputs, comments, multi-statement) x all 32 combinations of ShowParse/DualFormat/Compact/AllParens/FormatOnly: the normalised text it returns (what the REPL stores in its history) parses to the input's tree", n))
+	}
 	c.P.Bound = strings.Join(bounds, "; ") + "; normal and compact mode"
+}
+
+// c02EvalOneOptions: the text repl.EvalOne hands back for the history must be the input's program.
+var c02HistPrograms = [][]string{
+	{"a = 1 + 2 * 3"}, {"func f(x) { x + 1 }", "f(2)"}, {"x = [1, 2, 3]; y = {\"k\": x}", "println(y.k[0])"},
+	{"double = macro(x) { quote(unquote(x) * 2) }\ndouble(20 + 1)"}, {"double = macro(x) { quote(unquote(x) * 2) }", "double(20 + 1)", "z = double(3) + double(4)"},
+	{"m1 = macro(a, b) { quote(unquote(a) - unquote(b)) }; m1(5, 2 - 1)"}, {"if 1 < 2 { \"yes\" } else { \"no\" }"}, {"for i = 3 { println(i) }"},
+	{"f = x => x * 2; f(4) // comment"}, {"/* c */ a = 5\nb = a - (2 - 1)"}, {"s = \"a\\nb\"; len(s)"}, {"func g(a, ..) { len(..) }", "g(1, 2, 3)"},
+	{"q = quote(1 + 2)", "q"}, {"unless = macro(c, b) { quote(if !(unquote(c)) { unquote(b) }) }", "unless(1 > 2, println(\"ok\"))"},
+}
+
+func c02EvalOneOptions(c *core.Ctx) int {
+	n := 0
+	for pi, prog := range c02HistPrograms {
+		for mask := 0; mask < 32; mask++ {
+			key := fmt.Sprintf("evalone|%d|%d", pi, mask)
+			if !c.MineNoDedup("evalone", key) {
+				continue
+			}
+			n++
+			opts := repl.Options{All: true, ShowEval: true, NoColor: true, ShowParse: mask&1 != 0, DualFormat: mask&2 != 0, Compact: mask&4 != 0, AllParens: mask&8 != 0, FormatOnly: mask&16 != 0}
+			cs := core.Case{Kind: "evalone", Cfg: fmt.Sprint(mask), Data: strings.Join(prog, " ;; ")}
+			v := c.Run(func() *core.Viol {
+				s := eval.NewState()
+				var out strings.Builder
+				s.Out, s.LogOut, s.NoLog = &out, &out, true
+				for _, in := range prog {
+					_, _, errs, formatted := repl.EvalOne(context.Background(), s, in, &out, opts)
+					if len(errs) > 0 {
+						return nil // not a case under these options
+					}
+					want := parseText([]byte(in), false)
+					got := parseText([]byte(formatted), false)
+					if !want.clean() {
+						return nil
+					}
+					opt := obs.DumpOpt{DropComments: opts.Compact || opts.DualFormat}
+					if !got.clean() || obs.DumpAST(got.prog, opt) != obs.DumpAST(want.prog, opt) {
+						if got.clean() && c02Known(want.prog, got.prog, opt) != "" {
+							continue
+						}
+						return &core.Viol{Class: "evalone-returned-text-differs", Detail: fmt.Sprintf("options %+v: input %q came back as %q (%v)", opts, in, formatted, got.errs), Case: cs}
+					}
+				}
+				return nil
+			})
+			o := "history-text-ok"
+			if v != nil {
+				o = v.Class
+			}
+			c.CountNT(key, o, true)
+		}
+	}
+	return len(c02HistPrograms)
 }
 
 // ---------------------------------------------------------------------------------
